@@ -6,6 +6,10 @@ import socket
 import core
 
 
+class TrimUnavailable(Exception):
+    pass
+
+
 class ScriptedSocket(socket.socket):
     """A socket whose recv() returns a scripted sequence of chunks, then b'' (peer closed)."""
 
@@ -41,20 +45,49 @@ def file_sizes(stream: bytes, r):
     return [r] * ((len(stream) + r - 1) // r)
 
 
-def run_generator(kind, k, stream: bytes, sizes, r=None, cap=None):
-    """Returns list of packet bytes, or raises. kind 0 bytes, 1 file (read size r), 2 socket (scripted sizes)."""
+TRIM_LITERAL = 20_000_000
+_trim_cache = {}
+
+
+def generator_with_trim(T):
+    """packets.ccsds_generator as it stands in the working tree, with the literal 20_000_000 (the buffer-trim threshold) of its
+    code object replaced by T, so that the trim branch runs on small streams.  Nothing in the repository is edited: the function
+    object is rebuilt from the imported function's own bytecode.  Returns None when the literal does not occur (then only the
+    >20 MB streams of `extra` reach that branch)."""
+    import types
     from space_packet_parser import packets
+    fn = packets.ccsds_generator
+    if T == TRIM_LITERAL:
+        return fn
+    key = (id(fn.__code__), T)
+    if key not in _trim_cache:
+        code = fn.__code__
+        if not any(type(c) is int and c == TRIM_LITERAL for c in code.co_consts):
+            _trim_cache[key] = None
+        else:
+            consts = tuple(T if (type(c) is int and c == TRIM_LITERAL) else c for c in code.co_consts)
+            g = types.FunctionType(code.replace(co_consts=consts), fn.__globals__, fn.__name__, fn.__defaults__, fn.__closure__)
+            g.__kwdefaults__ = fn.__kwdefaults__
+            _trim_cache[key] = g
+    return _trim_cache[key]
+
+
+def run_generator(kind, k, stream: bytes, sizes, r=None, cap=None, trim=TRIM_LITERAL):
+    """Returns list of packet bytes, or raises. kind 0 bytes, 1 file (read size r), 2 socket (scripted sizes)."""
+    ccsds_generator = generator_with_trim(trim)
+    if ccsds_generator is None:
+        raise TrimUnavailable()
     if cap is None:
         cap = len(stream) // 7 + 3
     if kind == 0:
-        gen = packets.ccsds_generator(stream, skip_header_bytes=k)
+        gen = ccsds_generator(stream, skip_header_bytes=k)
     elif kind == 1:
-        gen = packets.ccsds_generator(io.BytesIO(stream), skip_header_bytes=k, buffer_read_size_bytes=r)
+        gen = ccsds_generator(io.BytesIO(stream), skip_header_bytes=k, buffer_read_size_bytes=r)
     else:
         chunks = cut(stream, sizes)
         sock = ScriptedSocket(chunks)
         try:
-            gen = packets.ccsds_generator(sock, skip_header_bytes=k,
+            gen = ccsds_generator(sock, skip_header_bytes=k,
                                           buffer_read_size_bytes=max([len(c) for c in chunks] + [1]))
             items = list(itertools.islice(gen, cap + 1))
         finally:
